@@ -2,7 +2,7 @@
 import core
 
 OPS = ["v_dot", "v_mag2", "v_dist2", "v_reflect", "v_cross", "v_side", "v_homog", "v_face", "v_pred", "v_refract", "v_try",
-       "v_slerp", "v_mag", "v_norm", "v_angle", "v_angle_f"]
+       "v_slerp", "v_mag", "v_norm", "v_angle", "v_angle_f", "v_side_i"]
 
 
 def key(rec):
@@ -26,7 +26,7 @@ def run(ctx):
                 "magnitude/distance (squared and not), the four normalisation forms and try_normalized, the predicates, "
                 "reflection, refraction incl. total internal reflection, face_forward for negative/zero/positive dot, "
                 "angle_between on token angles and in degrees, and on f32/f64 multiples of 45 degrees between vectors that are both very "
-                "short / ordinary / very long (independent of length, to 2^-10), cross, determine_side / triangle areas, homogenisation, "
+                "short / ordinary / very long (independent of length, to 2^-10), cross, determine_side / triangle areas (also on i32/i64: exact whenever the area is an integer), homogenisation, "
                 "Vec3 slerp; square roots are validated by what they satisfy (m^2 = |v|^2, m >= 0, m * unit = v)")
     thorough = ctx.tier == "thorough"
     core.law_runs(ctx, "Law_Spatial", ["Law_Spatial"])
